@@ -3,6 +3,9 @@
 package c09
 
 import (
+	"time"
+	"slices"
+	"runtime"
 	"bytes"
 	"context"
 	"errors"
@@ -386,9 +389,24 @@ func sequence(c *core.Ctx, r *core.Rand, i int) {
 	var cur *script
 	ex := newExecutor(func(string) *script { return cur })
 	K := 3 + r.Intn(6)
+	sup := []kmip.ProtocolVersion{kmip.V1_0, kmip.V1_1, kmip.V1_2, kmip.V1_3, kmip.V1_4}
 	for k := 0; k < K; k++ {
-		v := requestVersions[1+r.Intn(5)] // 1.0 .. 1.4: all supported by default
-		b := batchCase{option: options[r.Intn(3)], withIDs: r.Bool(), version: &v}
+		if k > 0 && r.P(1, 3) {
+			// the application changes the supported set between two requests of the executor
+			sup = nil
+			for m := 0; m < 5; m++ {
+				if r.Bool() {
+					sup = append(sup, kmip.ProtocolVersion{ProtocolVersionMajor: 1, ProtocolVersionMinor: int32(m)})
+				}
+			}
+			if len(sup) == 0 {
+				sup = []kmip.ProtocolVersion{kmip.V1_2}
+			}
+			ex.SetSupportedProtocolVersions(append([]kmip.ProtocolVersion{}, sup...)...)
+			c.Count("sequence_requests.supported-set-changed", 1)
+		}
+		v := requestVersions[1+r.Intn(5)] // 1.0 .. 1.4
+		b := batchCase{option: options[r.Intn(3)], withIDs: r.Bool(), version: &v, badVersion: !slices.Contains(sup, v), supported: sup}
 		for j, n := 0, 1+r.Intn(5); j < n; j++ {
 			switch r.Intn(6) {
 			case 0:
@@ -422,6 +440,85 @@ func sequence(c *core.Ctx, r *core.Rand, i int) {
 	}
 }
 
+// concurrentRequests: ONE executor handles requests of several connections at the same time, with different
+// continuation options and failing items; handlers yield so that the requests interleave. Each request is judged on
+// its own, exactly like a request handled alone.
+func concurrentRequests(c *core.Ctx, r *core.Rand, i int) {
+	var reg sync.Map // reqID -> *script
+	ex := newExecutor(func(id string) *script {
+		if s, ok := reg.Load(id); ok {
+			return s.(*script)
+		}
+		return nil
+	})
+	ex.BatchItemUse(func(next kmipserver.BatchItemNext, ctx context.Context, bi *kmip.RequestBatchItem) (*kmip.ResponseBatchItem, error) {
+		runtime.Gosched() // an item stage that lets other requests run (logging, a database call)
+		resp, err := next(ctx, bi)
+		runtime.Gosched()
+		return resp, err
+	})
+	G := 4 + r.Intn(5)
+	type job struct {
+		b    batchCase
+		req  *kmip.RequestMessage
+		resp *kmip.ResponseMessage
+		s    *script
+		pv   any
+		stk  string
+	}
+	jobs := make([][]*job, G)
+	for g := 0; g < G; g++ {
+		rr := core.NewRand(c.Seed, "c09-concurrent", i, g)
+		for k := 0; k < 12; k++ {
+			b := batchCase{option: options[rr.Intn(3)], withIDs: rr.Bool()}
+			for j, n := 0, 2+rr.Intn(4); j < n; j++ {
+				if rr.P(1, 3) {
+					b.outcomes = append(b.outcomes, outcome(1+rr.Intn(int(nOutcomes)-1)))
+				} else {
+					b.outcomes = append(b.outcomes, oSuccess)
+				}
+			}
+			for j, o := range b.outcomes { // handlers that need a context of their own are left to the sequence family
+				if o == oCancel || o == oDiscover {
+					b.outcomes[j] = oPlain
+				}
+			}
+			id := fmt.Sprintf("cc%d-%d-%d", i, g, k)
+			jb := &job{b: b, s: &script{outcomes: b.outcomes, panicIdx: k}}
+			jb.req = buildRequest(b, id, rr)
+			reg.Store(id, jb.s)
+			jobs[g] = append(jobs[g], jb)
+		}
+	}
+	var wg sync.WaitGroup
+	start := make(chan struct{})
+	for g := 0; g < G; g++ {
+		wg.Add(1)
+		go func(g int) {
+			defer wg.Done()
+			<-start
+			for _, jb := range jobs[g] {
+				if p, pv, st := core.Guard(func() { jb.resp = ex.HandleRequest(context.Background(), jb.req) }); p {
+					jb.pv, jb.stk = pv, st
+				}
+			}
+		}(g)
+	}
+	close(start)
+	wg.Wait()
+	c.Count("concurrent_request_rounds", 1)
+	for g := range jobs {
+		for _, jb := range jobs[g] {
+			if jb.pv != nil {
+				c.Violation(core.PanicSig(jb.pv, jb.stk), fmt.Sprintf("HandleRequest panicked: %v (%s)", jb.pv, jb.b), map[string]any{"stack": jb.stk})
+				return
+			}
+			c.Count("concurrent_requests", 1)
+			check(c, jb.b, jb.req, jb.resp, jb.s, "concurrent")
+		}
+	}
+}
+
 func Spec() *core.Spec {
 	slog.SetDefault(slog.New(slog.NewTextHandler(io.Discard, nil)))
 	return &core.Spec{
@@ -431,7 +528,7 @@ func Spec() *core.Spec {
 			"x continuation option {unset, Continue, Stop, Undo} x {supported, unsupported} version x {matching, mismatching} batch count x with/without item ids, through BatchExecutor.HandleRequest with instrumented handlers; " +
 			"seeded random batches of up to 40 items; a sample sent through a real server connection so ids and counts cross the wire. Compared with a 30-line reference model (item count/order/echo, counts, version, success/failure, handler trace). " +
 			"all 31 supported-version sets x 11 request versions (inside, in gaps, outside); sequences of 3-8 requests on ONE executor (versions 1.0-1.4, built-in Discover Versions with client sub-lists, handlers cancelling the request context mid-batch); distinct = distinct (batch description, path) combinations",
-		Required: []string{"wire_pipelined_groups", "requests_through_debug_middleware", "count_mismatch.fewer-announced", "sequence_requests", "sequence_requests.context-cancelled-mid-batch", "versions.supported", "versions.unsupported.in-a-gap", "batches.direct", "batches.wire", "rejected_requests"},
+		Required: []string{"wire_pipelined_groups", "requests_through_debug_middleware", "concurrent_requests", "sequence_requests.supported-set-changed", "count_mismatch.fewer-announced", "sequence_requests", "sequence_requests.context-cancelled-mid-batch", "versions.supported", "versions.unsupported.in-a-gap", "batches.direct", "batches.wire", "rejected_requests"},
 		Families: []core.Family{
 			{Name: "exhaustive", Exhaustive: true, N: func(tier string) int {
 				if tier == core.Thorough {
@@ -495,6 +592,12 @@ func Spec() *core.Spec {
 				}
 				direct(c, b, r, i)
 			}},
+			{Name: "concurrent", N: func(tier string) int {
+				if tier == core.Thorough {
+					return 20000
+				}
+				return 150
+			}, Run: concurrentRequests, Timeout: 60 * time.Second},
 			{Name: "sequence", N: func(tier string) int {
 				if tier == core.Thorough {
 					return 100000
